@@ -364,6 +364,50 @@ def r_feeder(e, R):
             "self._close = Finalize(self, Queue._finalize_close, [self._buffer, self._notempty])",
             "close() of the queue no longer tells the feeder thread to quit: one feeder thread (and the pipe it holds) leaks per executor", e.loc(st, st.node))
     R.trust("stdlib: multiprocessing.queues.Queue.close() calls the finaliser stored in self._close; Queue._finalize_close appends the sentinel and notifies")
+    # ... "the inherited close()": if loky's Queue (or the executor's subclass of it) overrides close(), the override itself must call the stored
+    # finaliser (or the inherited close) on every path on which a finaliser is stored -- an early return, e.g. because some other code already
+    # closed the reader end, leaves the feeder thread waiting forever
+    qcls = st.cls
+    for cq_, cl_ in e.prog.classes.items():
+        if not (qcls is not None and (cq_ == qcls.qualname or e.pt.is_subclass(cq_, qcls.qualname))):
+            continue
+        cm = cl_.methods.get("close")
+        if cm is None:
+            continue
+        cg_ = e.cfg(cm)
+        selfn_ = cm.params[0]
+        aliases = {n.targets[0].id for n in func_nodes(cm) if isinstance(n, ast.Assign) and isinstance(n.targets[0], ast.Name) and isinstance(n.value, ast.Attribute)
+                   and n.value.attr == "_close" and isinstance(n.value.value, ast.Name) and n.value.value.id == selfn_}
+
+        def fin_call(n, aliases=aliases, selfn_=selfn_):
+            for c in calls_in(n):
+                fn_ = c.func
+                if isinstance(fn_, ast.Name) and fn_.id in aliases:
+                    return True
+                if isinstance(fn_, ast.Attribute) and fn_.attr == "_close" and isinstance(fn_.value, ast.Name) and fn_.value.id == selfn_:
+                    return True
+                if isinstance(fn_, ast.Attribute) and fn_.attr == "close" and isinstance(fn_.value, ast.Call) and isinstance(fn_.value.func, ast.Name) and fn_.value.func.id == "super":
+                    return True
+            return False
+
+        def present(n, m, label, aliases=aliases):
+            # the finaliser is there: a test of it (`if close:`) takes its true branch
+            if n.kind == "test" and label in ("T", "F"):
+                x = n.ast
+                neg = False
+                while isinstance(x, ast.UnaryOp) and isinstance(x.op, ast.Not):
+                    x, neg = x.operand, not neg
+                nt_ = none_test(x)
+                subj = nt_[0] if nt_ else None
+                if subj is not None and ((isinstance(subj, ast.Name) and subj.id in aliases) or (isinstance(subj, ast.Attribute) and subj.attr == "_close")):
+                    want = nt_[1] if not neg else ("F" if nt_[1] == "T" else "T")
+                    return label == want
+            return True
+        esc_ = cg_.escape_path(cg_.entry, fin_call, use_exc=False, edge_ok=present)
+        R.check(any(fin_call(n) for n in cg_.nodes) and esc_ is None, "R-FEEDER", f"{cm.short}: an overriding close() runs the closing finaliser on every path", cm.short,
+                "close() -> self._close()", "the close() override can return without running the finaliser that sends the sentinel to the feeder thread (an early return "
+                "before it): the feeder thread, the pipe and the three semaphores of the queue leak for every lifecycle that takes that path", e.loc(cm, cm.node),
+                cg_.fmt_path(esc_) if esc_ else None)
     R.floor("R-FEEDER", 11)
     R.floor("R-PAIR", 4)
 
